@@ -349,6 +349,8 @@ func (e *Exec) Run(op map[string]interface{}) (res J) {
 					obj = t.New()
 				}
 				r = e.callFrom(t, tf, obj)
+			case "peek": // decode the current object into a fresh struct; the current struct stays
+				r = e.callFrom(t, tf, t.New())
 			default:
 				panic("bad step")
 			}
